@@ -632,10 +632,23 @@ func judge(sc scenario) (verdict, []string) {
 	if bad != "" {
 		return v, []string{bad}
 	}
+	out := w.judgeOnce(v)
+	if sc.Pipeline && v.Fails && len(out) == 0 {
+		// History: the same failure again on the next reconcile (the first one only touched XR status).
+		for _, m := range w.judgeOnce(v) {
+			out = append(out, "second consecutive failing reconcile: "+m)
+		}
+	}
+	return v, out
+}
+
+// judgeOnce runs one reconcile of the script under test and checks its write log against the verdict.
+func (w *world) judgeOnce(v verdict) []string {
+	sc := w.sc
 	before := w.env.Sim.Get(w.env.XRKey(xrName))
 	log, _, bad := w.reconcileUnderTest()
 	if bad != "" {
-		return v, []string{bad}
+		return []string{bad}
 	}
 	after := w.env.Sim.Get(w.env.XRKey(xrName))
 
@@ -697,13 +710,13 @@ func judge(sc scenario) (verdict, []string) {
 			out = append(out, fmt.Sprintf("composition succeeds but deleted set %v != expected %v (observed-and-collectable %v, final desired %v); writes on composed kinds: %s", got, want, sorted(v.Observed), sorted(v.Desired), strings.Join(mutations, "; ")))
 		}
 	default: // P&T run that does not succeed: one direction only (M5)
-		for n := range deleted {
+		for _, n := range sorted(deleted) {
 			if !v.ExpectDel[n] {
 				out = append(out, fmt.Sprintf("P&T deleted %q whose template still exists or which it does not own; collectable set is %v", n, sorted(v.ExpectDel)))
 			}
 		}
 	}
-	return v, out
+	return out
 }
 
 // ---------------------------------------------------------------------------
